@@ -7,6 +7,7 @@
 budget=${1:-40}
 for d in /verif/seeded/*/; do
   id=$(basename $d)
+  if [ -n "$REGRESS_IDS" ] && ! echo " $REGRESS_IDS " | grep -q " $id "; then continue; fi
   props=$(python3 - "$d/meta.json" <<'P'
 import json,re,sys
 m=json.load(open(sys.argv[1]))
